@@ -244,6 +244,8 @@ impl<'a, N: Normalizer> Html5Serializer<'a, N> {
                 // we don't want to output non-empty prefixes unless the
                 // element has an attribute with the same prefix
                 if (*prefix_id == self.xot.xml_prefix() && namespace_id == &self.xot.xml_namespace())
+                    // a prefix bound to "no namespace" has no spelling
+                    || (*prefix_id != self.xot.empty_prefix() && *namespace_id == self.xot.no_namespace())
                     || (*prefix_id == self.xot.empty_prefix()
                         && self.xot.namespace_for_name(element_name) != *namespace_id)
                     || (*prefix_id != self.xot.empty_prefix()
